@@ -26,6 +26,10 @@ Definition bind {A B} (r : res A) (f : A -> res B) : res B :=
   match r with Ok a => f a | Raise e => Raise e end.
 Definition is_ok {A} (r : res A) : bool := match r with Ok _ => true | Raise _ => false end.
 
+(* check_type_against on the two integer kinds: distinct types, no subsumption between them *)
+Definition check_type_against (actual ty : kind) : res kind :=
+  if kind_eqb actual ty then Ok ty else Raise (TypeMismatchError ty actual).
+
 (** HUGR constant values built by python_value_to_hugr for integers. *)
 Inductive hconst :=
 | IntVal (v width : Z)            (* hugr.std.int.IntVal(v, width=...) *)
